@@ -28,6 +28,41 @@ class Inconclusive(Exception):
     pass
 
 
+class ProxyPanic(Exception):
+    """The executor process died from a Go panic raised inside the proxy's own code."""
+    def __init__(self, what, plan, text):
+        super().__init__(what)
+        self.what, self.plan, self.text = what, plan, text
+
+
+def classify_crash(out_dir, output):
+    """Decide whether a dead executor is a panic of the proxy (a finding) or a problem of the harness."""
+    m = re.search(r"^panic: (.*)$", output, re.M)
+    fatal = re.search(r"^fatal error: (.*)$", output, re.M)
+    if not m and not fatal:
+        return None
+    what = (m or fatal).group(1)
+    if "deadlock: main bubble goroutine has exited" in output or "synctest" in what:
+        return None
+    # frames of the panicking goroutine: the first block after the panic line
+    tail = output[(m or fatal).end():].lstrip("\n")
+    block = tail.split("\n\n")[0] if "\n\n" in tail else tail
+    frames = re.findall(r"^([\w./\-*()\[\]]+)\(", block, re.M)
+    frames = [f for f in frames if not f.startswith(("runtime.", "panic(", "testing.", "internal/", "sync.", "net/http", "net."))]
+    if not frames:
+        return None
+    top = frames[0]
+    if "kamal-proxy/internal/server" in top or "kamal-proxy/internal/cmd" in top:
+        plan = None
+        cur = os.path.join(out_dir, "current")
+        if os.path.exists(cur):
+            pf = os.path.join(out_dir, "plans", open(cur).read().strip() + ".json")
+            if os.path.exists(pf):
+                plan = json.load(open(pf))
+        return ProxyPanic(what + " in " + top, plan, output[-3000:])
+    return None
+
+
 def sh(cmd, **kw):
     return subprocess.run(cmd, **kw)
 
@@ -88,6 +123,9 @@ def run_executor(binary, family, n, seed, tier, procs=None, extra_env=None, plan
             p.kill()
             raise Inconclusive("executor timed out")
         if p.returncode != 0:
+            pp = classify_crash(out, o)
+            if pp:
+                raise pp
             raise Inconclusive("executor failed (exit %d):\n%s" % (p.returncode, o[-4000:]))
     return outs
 
